@@ -17,9 +17,14 @@ Record tcfg := mkTC {
   cleanup_us : N      (* cleanup_inactive_timeout *)
 }.
 
-(* one loop iteration as seen by this work: the handle_events call it got in _run_once (None: none of
-   its descriptors was ready / select timed out) and the time.time() that is_inactive() reads *)
-Record loop_iter := mkIter { it_ev : option event; it_t : Z }.
+(* one loop iteration as seen by this work:
+   - it_ev: the handle_events call it got in _run_once (None: none of its descriptors was ready / select
+     timed out / its own previous task is still in flight — _update_selector and _create_tasks skip such a work);
+   - it_t: the time.time() that is_inactive() reads if the sweep runs in this iteration;
+   - it_unfinished: whether _run_once left tasks in self.unfinished (some work's handle_events coroutine is
+     still suspended: another work awaiting a slow plugin future, ...).  An INPUT of the iteration: the
+     loop body below never looks at it — in the code the tick advances and the sweep runs regardless. *)
+Record loop_iter := mkIter { it_ev : option event; it_t : Z; it_unfinished : bool }.
 
 Inductive fate := Alive | ClosedByHandler | Reaped (t : Z).
 
@@ -47,7 +52,14 @@ Definition cleanup_inactive (c : cfg) (st : rstate) (t : Z) : rstate :=
 
 Definition set_tick (n : N) (st : rstate) : rstate := mkR (r_h st) n (r_fate st).
 
-(* one iteration of _run_forever; the boolean says whether the sweep ran *)
+(* one iteration of _run_forever; the boolean says whether the sweep ran.
+       if await self._run_once(): break
+       elapsed = tick * (DEFAULT_SELECTOR_SELECT_TIMEOUT + self.wait_timeout)
+       if elapsed >= self.cleanup_inactive_timeout: self._cleanup_inactive(); ...; tick = 0
+       tick += 1
+   No test of self.unfinished anywhere: [it_unfinished it] is not used.  _cleanup_inactive asks is_inactive()
+   of EVERY work in self.works, also of one whose own task is in flight; such a work is then shut down under
+   its suspended task (which later finds closed sockets; its teardown is absorbed by _cleanup's works.pop). *)
 Definition threadless_iter (tc : tcfg) (c : cfg) (st : rstate) (it : loop_iter) : rstate * bool :=
   let st1 := run_once c st (it_ev it) in
   if sweep_due tc (r_tick st1)
